@@ -134,6 +134,7 @@ def register(reg):
 
 
     register_order(reg)
+    register_project_sql(reg)
     register_order_steps(reg)
     register_small_steps(reg)
 
@@ -247,6 +248,70 @@ def Ty_py_none():
 
 
 KEYS_C18 = ["SQLModel.order_to_near_sql"]
+
+
+# ====================================================================== C09: SQLModel.project_to_near_sql (GROUP BY text)
+def register_project_sql(reg):
+    """GROUP BY names every group key of the node, whatever the later steps still use (`using`); without group keys there is no GROUP BY (one row)."""
+    import z3
+    from pyvc.api import Contract, T, VList, VNone, VOpt, VPy, VScalar, VSet, VStr, VTuple, VDict, fresh_name
+    from contracts.vr_common import COLS, NODE, OPS
+    SM = T.obj("SQLModel")
+    NEAR = T.opaque("NearSQL")
+
+    def quote(S):
+        return S.func("quote_identifier", S.Atom, S.Atom)
+
+    def e2s(S):
+        return S.func("expr_to_sql", S.sort("Expr"), S.Atom)
+
+    def e2s_apply(eng, st, argmap, node):
+        eng.registry.note("assumed: expr_to_sql is a function of the expression (its correctness is C01/C05's business)")
+        return [(st, VScalar(e2s(eng.S)(argmap["expression"].z), T.atom))]
+
+    reg.add(Contract(key="SQLModel.expr_to_sql", cls="SQLModel", params={"self": SM, "expression": T.opaque("Expr")}, assumed=True, apply=e2s_apply))
+
+    def cu_apply(eng, st, argmap, node):
+        r = eng.alloc(st, "OrderedSet")
+        return [(st, VTuple([r], is_list=True))]
+
+    reg.add(Contract(key="ProjectNode.columns_used_from_sources", cls="ProjectNode", params={"self": T.obj("ProjectNode")}, assumed=True, apply=cu_apply,
+                     note="columns_used_from_sources: proved separately (C10); here only its shape (one entry) matters"))
+
+    def ens(c):
+        S = c.S
+        if c.raised:
+            return []
+        node = c.project_node
+        gb = c.field(node, "group_by")
+        suffix = c.st.ghost.get("unary_step_suffix")
+        if suffix is None:
+            return [("builds-a-unary-step", z3.BoolVal(False))]
+        sl = c.eng.list_of(suffix, c.st)
+        arg = c.st.ghost.get("sep_terms_arg")
+        i = z3.Int("grp_i")
+        out = []
+        if arg is None:
+            out.append(("no-GROUP-BY-only-without-group-keys (then the query returns one row)", z3.And(gb.n <= 0, sl.n == 0)))
+        else:
+            out.append(("GROUP-BY-terms-are-ALL-the-quoted-group-keys-in-order-whatever-later-steps-use",
+                        z3.And(arg.n == gb.n, gb.n > 0, z3.ForAll([i], z3.Implies(z3.And(0 <= i, i < gb.n), arg.arr[i] == quote(S)(gb.arr[i]))))))
+            out.append(("suffix-is-GROUP-BY-followed-by-one-line-per-key", z3.And(sl.n == arg.n + 1, sl.arr[0] == S.str_const("GROUP BY"))))
+        terms = c.st.ghost.get("unary_step_terms")
+        if isinstance(terms, VDict):
+            g = z3.Const("grp_g", S.Atom)
+            mem = c.eng.list_mem(gb, c.st)
+            out.append(("every-group-key-is-a-selected-term", z3.ForAll([g], z3.Implies(mem[g], terms.dom[g]))))
+        return out
+
+    reg.add(Contract(key="SQLModel.project_to_near_sql", file="data_algebra/sql_model.py", qualname="SQLModel.project_to_near_sql", cls="SQLModel",
+                     params={"self": SM, "project_node": T.obj("ProjectNode"), "using": T.opt(T.obj("OrderedSet")), "temp_id_source": Ty_py_none(), "sql_format_options": T.opaque("SQLFormat")},
+                     returns=NEAR, ensures=ens, modifies=(("OrderedSet", "impl"),),
+                     requires=lambda c: [("is-a-project-node", c.field(c.project_node, "node_name").z == c.S.str_const("ProjectNode")), ("one-source", c.field(c.project_node, "sources").n == 1),
+                                         ("node-allocated", c.eng.allocated(c.st, c.project_node)), ("source-allocated", c.eng.allocated(c.st, VScalar(c.field(c.project_node, "sources").arr[0], NODE)))]))
+
+
+KEYS_C09_SQL = ["SQLModel.project_to_near_sql"]
 
 
 # ====================================================================== C18: the executors' order_rows steps (arguments handed to sort / head)
